@@ -26,6 +26,10 @@ BUILTIN_EXC = {
 }
 
 
+class SymbolicFilter(Exception):
+    pass
+
+
 class PathEnded(Exception):
     """evaluation of a lazily evaluated element raised (the exception path is already recorded): this value path ends"""
 
@@ -141,6 +145,10 @@ class Engine:
                 if dr:
                     meta = dict(meta, replay=dr)
             self.obligations.append(Obligation(f"{self.label}/{name}#{len(self.obligations)}", st.pc + self.round_axioms, goal, pr, dict(meta)))
+
+    def cover(self, name, st, cond):
+        """reachability clause: `cond` must be possible on this path (guards the obligations next to it against vacuity)"""
+        self.obligations.append(Obligation(f"{self.label}/cover:{name}#{len(self.obligations)}", st.pc + self.round_axioms, cond, self.prop, {"kind": "cover"}))
 
     def qoblige(self, name, st, goals, **meta):
         """prove forall-goals: skolemise each at a fresh constant, instantiate the assumed forall-facts of the path there"""
@@ -973,6 +981,16 @@ class Engine:
                 return True
             if s is not None and isinstance(s.H(a), list) and isinstance(s.H(b), list):
                 return self.eq(tuple(s.H(a)), tuple(s.H(b)), s)
+            if s is not None and a.cls == b.cls == "dict" and isinstance(s.H(a), dict) and isinstance(s.H(b), dict):
+                # two dict objects: equal iff same keys (concrete here) and equal values, whatever the insertion order
+                ia, ib = s.H(a).get("@items"), s.H(b).get("@items")
+                if ia is None or ib is None:
+                    raise Unsupported("equality of dicts that are not spelled out")
+                if len(ia) != len(ib) or any(k not in ib for k in ia):
+                    if any(is_sym(k) for k in list(ia) + list(ib)):
+                        raise Unsupported("equality of dicts with symbolic keys")
+                    return False
+                return And(*[self.eq(ia[k], ib[k], s) for k in ia])
             for c in self.mro(a.cls):
                 if (c, "__eq__") in self.methods:
                     (r, _), = self.methods[(c, "__eq__")](self, s, a, (b,), {})
@@ -1099,10 +1117,46 @@ class Engine:
         gen = e.generators[0]
         outs = []
         for src, s in self.ev(gen.iter, st):
-            outs.append((self.comprehend(e.elt, gen, src, s), s))
+            try:
+                outs.append((self.comprehend(e.elt, gen, src, s), s))
+            except SymbolicFilter:
+                outs += self.comprehend_split(e.elt, gen, src, s)
         return outs
 
     ev_ListComp = ev_GeneratorExp
+
+    def comprehend_split(self, elt, gen, src, s):
+        """filter conditions that depend on symbolic values: one path per combination of kept / dropped elements (concrete source)"""
+        acc = [((), s)]
+        for it in self.iter_concrete(src, s):
+            nxt = []
+            for out, cur in acc:
+                s2 = self.fork(cur)
+                s2.frames.append({})
+                self.assign(gen.target, it, s2)
+                branches = [(True, s2)]
+                for cond in gen.ifs:
+                    nb = []
+                    for keep, s3 in branches:
+                        if not keep:
+                            nb.append((False, s3))
+                            continue
+                        c, s4 = self.ev1(cond, s3)
+                        t = self.truth_st(c, s4)
+                        nb += [(bool(side), s5) for side, s5 in self.split(s4, t)] if is_sym(t) else [(bool(t), s4)]
+                    branches = nb
+                for keep, s3 in branches:
+                    if keep:
+                        v, s3 = self.ev1(elt, s3)
+                        s3 = self.fork(s3)
+                        s3.frames.pop()
+                        nxt.append((out + (v,), s3))
+                    else:
+                        s3 = self.fork(s3)
+                        s3.frames.pop()
+                        nxt.append((out, s3))
+            acc = nxt
+        return acc
 
     def comprehend(self, elt, gen, src, s):
         """lazy sequence: element k evaluated in the *iterating* state"""
@@ -1119,7 +1173,7 @@ class Engine:
                     c, _ = self.ev1(cond, s2)
                     t = self.truth_st(c, s2)
                     if is_sym(t):
-                        raise Unsupported("symbolic comprehension filter")
+                        raise SymbolicFilter()
                     keep = keep and t
                 if keep:
                     v, _ = self.ev1(elt, s2)
@@ -2160,6 +2214,13 @@ def _b_int(eng, s, args, kw):
     if z3.is_int(x):
         return [(x, s)]
     if z3.is_real(x):
+        if getattr(eng, "float_trunc_unstable", False):
+            # A-FLOAT refinement: a float whose mathematical value is exactly an integer N may have been computed a hair below
+            # (or, when negative, above) it, so truncation gives N or the neighbour towards zero; everywhere else it is exact
+            r = eng.sym_int("trunc")
+            s = eng.fork(s)
+            s.pc.append(z3.If(x >= 0, z3.And(z3.ToReal(r) <= x, x <= z3.ToReal(r) + 1, r >= 0), z3.And(z3.ToReal(r) - 1 <= x, x <= z3.ToReal(r), r <= 0)))
+            return [(r, s)]
         return [(z3.If(x >= 0, z3.ToInt(x), -z3.ToInt(-x)), s)]
     if z3.is_string(x):
         # int(s): optional white space, optional sign, decimal digits (any Unicode Nd) with single underscores between them.
@@ -2268,7 +2329,13 @@ def _b_getattr(eng, s, args, kw):
 def _b_hasattr(eng, s, args, kw):
     o, name = args
     if isinstance(o, Ref):
-        return [(name in s.H(o) or any((c, name) in eng.attrs or (c, name) in eng.methods for c in eng.mro(o.cls)), s)]
+        if name in s.H(o) or any((c, name) in eng.attrs or (c, name) in eng.methods for c in eng.mro(o.cls)):
+            return [(True, s)]
+        # attributes found further up (class / ancestors), as modelled by the object's inherited-values map
+        inh = s.H(o).get("@inherit") if isinstance(s.H(o), dict) else None
+        if inh is not None and name in inh:
+            return [(bool(side), s2) for side, s2 in eng.split(s, inh[name][0])]
+        return [(False, s)]
     raise Unsupported("hasattr on non-object")
 
 
@@ -2315,8 +2382,27 @@ def _b_id(eng, s, args, kw):
     raise Unsupported("id()")
 
 
+_PY_HASH = z3.Function("py_hash", z3.IntSort(), z3.IntSort())
+_PY_HASH_PAIR = z3.Function("py_hash_pair", z3.IntSort(), z3.IntSort(), z3.IntSort())
+
+
 def _b_hash(eng, s, args, kw):
-    raise Unsupported("hash()")
+    """hash(x): some function of the value - equal arguments hash equal, NOTHING else (different values may collide)"""
+    def enc(v):
+        if isinstance(v, tuple):
+            acc = z3.IntVal(len(v))
+            for x in v:
+                acc = _PY_HASH_PAIR(acc, enc(x))
+            return acc
+        if isinstance(v, Rec):
+            return enc(v.astuple())
+        if isinstance(v, bool) or (is_sym(v) and z3.is_bool(v)):
+            return z3.If(to_z3(v), 1, 0)
+        if isinstance(v, int) or (is_sym(v) and z3.is_int(v)):
+            return to_z3(v)
+        raise Unsupported(f"hash() of {v!r}")
+    (x,) = args
+    return [(_PY_HASH(enc(x)), s)]
 
 
 def _b_reversed(eng, s, args, kw):
